@@ -32,7 +32,9 @@ TrajPoint(A, x1, j) == IF j = 1 THEN x1
 TrajData(a, seed, m) == LET x1 == <<1 + ((seed + SaltValue) % 2), ((seed + SaltValue) % 3) - 1>>
                         IN  [i \in 1..2 |-> [j \in 1..m |-> TrajPoint(RotMaps[a], x1, j)[i]]]
 TrajBases == {<<<<Const(0), Id(0)>>, <<Const(1), Id(1)>>>>, <<<<Id(0), Id(1)>>, <<Const(0), Id(1)>>>>,
-              <<<<Const(0), Id(0), Id(1)>>, <<Const(0), Id(0)>>>>, <<<<Id(0), Id(1)>>, <<Id(0), Id(1)>>>>}
+              <<<<Const(0), Id(0), Id(1)>>, <<Const(0), Id(0)>>>>, <<<<Id(0), Id(1)>>, <<Id(0), Id(1)>>>>,
+              \* three modes: an interior core in the HOSVD loop
+              <<<<Const(0), Id(0)>>, <<Const(0), Id(1)>>, <<Const(0), Id(0)>>>>}
 TConfigs == {[d |-> 2, m |-> m, seed |-> seed, basis |-> b, npairs |-> np, traj |-> a] :
                 m \in (IF Level = 1 THEN {5} ELSE {4, 5, 6}), seed \in 1..(IF Level = 1 THEN 2 ELSE 4), np \in {1, 3},
                 b \in TrajBases, a \in 1..Len(RotMaps)}
